@@ -7,7 +7,6 @@ package metadata
 // sequence on the two store models.
 
 import (
-	"context"
 	"encoding/json"
 	"fmt"
 	"reflect"
@@ -50,7 +49,7 @@ func c17Classify(cs c17Case, at int) string {
 }
 
 func TestVerifC17(t *testing.T) {
-	rep := vNewReport("C17", "generated sequences (4-28 ops over all 16 Store operations, 1-6 topic and 1-5 group names, 30% of those cases with names containing '/', ':', '%', unicode, dot segments or empty) run on the real InMemoryStore and the real EtcdStore (embedded etcd); every third case is a two-topic scenario: valid names where one is a strict string prefix of the other (a / a-b / a.b / a_1 / a0 ...), durable state on both, then DeleteTopic / re-create / growth / config / offsets on one, each followed by a full read-back of the other; the real etcd key set is read through the client after every op; a case is non-trivial when it has a successful CreateTopic, a commit or group put, and a later read that returns stored data; distinct = distinct canonical (brokers, op list)")
+	rep := vNewReport("C17", "generated sequences (4-28 ops over all 16 Store operations, 1-6 topic and 1-5 group names, 30% of those cases with names containing '/', ':', '%', unicode, dot segments or empty) run on the real InMemoryStore and the real EtcdStore (embedded etcd); every fourth case is a two-topic scenario: valid names where one is a strict string prefix of the other (a / a-b / a.b / a_1 / a0 ...), durable state on both, then DeleteTopic / re-create / growth / config / offsets on one, each followed by a full read-back of the other; the real etcd key set is read through the client after every op; a case is non-trivial when it has a successful CreateTopic, a commit or group put, and a later read that returns stored data; distinct = distinct canonical (brokers, op list)")
 	e := msStartEtcd(t)
 	var coq, jsons []string
 	runOne := func(cs c17Case) {
@@ -126,7 +125,7 @@ func TestVerifC17(t *testing.T) {
 		n := vN(150, 2000)
 		for i := 0; i < n; i++ {
 			rr := r.Fork()
-			if i%3 == 2 {
+			if i%4 == 3 {
 				// two live topics with prefix-related valid names, state on both, operations on one
 				// interleaved with read-backs of the other
 				sc := msGenScenario(rr)
